@@ -468,7 +468,7 @@ CHECK_DEADLOCK FALSE
         for p in (trace + ".1", trace + ".2", trace + ".3"):
             f.write(open(p).read())
     tv = vlib.validate_trace_parallel("trace/TableTrace.tla", ctx.cfg("tv.cfg", TABLE_TV_CFG % ", ".join('"%s"' % s for s in strict)),
-                                      trace, nparts=12, timeout=3000)
+                                      trace, nparts=14, timeout=3000)
     total, distinct = vlib.count_distinct_behaviours(beh)
     ctx.add_tv("table", tv, total, distinct)
     ctx.cov["rule"] = ("behaviours = all operation sequences (offer as responder / as hearsay, query sent, query received, time) of "
